@@ -431,6 +431,78 @@ def rule_epoch(rep, funcs):
                    % (f.qname, ncalls, nl, hyp(f)), sample=(hyp(f) == "TRIDIMENSIONAL"))
 
 
+# ------------------------------------------- no output written before a failure
+OUT_FIELDS = ("stored_energy", "dissipated_energy", "thermodynamic_forces", "internal_state_variables")
+
+
+def rule_output_before_failure(rep, funcs):
+    """WRITE-BEFORE-FAILURE: in mfront::gb::integrate no statement writes the caller's end-of-step stresses, internal state variables or energies
+    (through d.s1.<field>: a dereference, a subscript, a mutable view, or the pointer handed to a function whose parameter is a pointer or
+    reference to non-const) on a path that can still reach 'return -1'.  The state is exported by exportStateData only, which the
+    MUST-PRECEDE rule places after every success test."""
+    for f in funcs:
+        if f.qname != "mfront::gb::integrate" or f.d.get("isLambda") or f.entry is None:
+            continue
+        rep.count("integrate instantiations examined for early output writes")
+
+        def s1_field(x):
+            p = f.path(x) or ""
+            for fld in OUT_FIELDS:
+                if p == "d.s1." + fld:
+                    return fld
+            return None
+
+        def write_of(sid):
+            n = f.stmts[sid]
+            if n["k"] in ("CallExpr", "CXXMemberCallExpr"):
+                cal = n.get("callee") or ""
+                pts = n.get("calleeParamTypes") or []
+                for i, a in enumerate(n.get("args") or []):
+                    fld = s1_field(a)
+                    if fld and i < len(pts):
+                        t = pts[i]
+                        if ("*" in t or "&" in t) and not re.match(r"^const ", t.strip()):
+                            return fld, cal
+            if n["k"] in ("CXXConstructExpr", "CXXTemporaryObjectExpr") and MUTABLE_VIEW.search(n.get("ctorClass") or ""):
+                for a in n.get("args") or []:
+                    if s1_field(a):
+                        return s1_field(a), n.get("ctorClass")
+            bo = f.binop(sid)
+            if bo and (bo[0] == "=" or (bo[0].endswith("=") and bo[0] not in ("==", "!=", "<=", ">="))):
+                l = f.stmts.get(f.strip(bo[1]))
+                if l is not None and l["k"] in ("ArraySubscriptExpr",) and s1_field(f.kids(f.strip(bo[1]))[0]):
+                    return s1_field(f.kids(f.strip(bo[1]))[0]), "assignment"
+                if l is not None and l["k"] == "UnaryOperator" and l.get("op") == "*" and s1_field(f.kids(f.strip(bo[1]))[0]):
+                    return s1_field(f.kids(f.strip(bo[1]))[0]), "assignment"
+            return None
+        bad = {}
+
+        def el(st, b, i, e):
+            if "s" not in e:
+                return (st,)
+            sid = e["s"]
+            w = write_of(sid)
+            if w:
+                return (st | frozenset([(w[0], sid)]),)
+            n = f.stmts[sid]
+            if n["k"] == "ReturnStmt" and st and f.kids(sid):
+                v = f.stmts.get(f.strip(f.kids(sid)[0]))
+                neg = v is not None and v["k"] == "UnaryOperator" and v.get("op") == "-"
+                if neg:
+                    for fld, ws in st:
+                        bad.setdefault(fld, (ws, sid))
+            return (st,)
+        forward(f, (frozenset(),), el)
+        if bad:
+            for fld, (ws, rs) in sorted(bad.items()):
+                key = "WRITE-BEFORE-FAILURE@mfront::gb::integrate#%s" % fld
+                if not any(v["key"] == key for v in rep.violations):
+                    rep.fail(key, "%s: mfront::gb::integrate writes the caller's end-of-step %s (%s) and can still return -1 afterwards (%s): a failed "
+                             "integration modifies the output state [%s]" % (rel(f.short_loc(ws)), fld, f.text(ws)[:70], rel(f.short_loc(rs)), hyp(f)))
+        else:
+            rep.ok("mfront::gb::integrate writes no output of the caller before its failure returns [%s]" % hyp(f), sample=(hyp(f) == "TRIDIMENSIONAL"))
+
+
 # ------------------------------------------------ write-back only on success
 INPUT_PATHS = ("d.s1.gradients", "d.s1.material_properties", "d.s1.external_state_variables", "d.s1.mass_density")
 MUTABLE_VIEW = re.compile(r"(^|::)(?!Const)\w*View(<|$)")
